@@ -60,10 +60,10 @@ ArchAll == <<
     A(FALSE, FALSE, "-",     TRUE,  FALSE, 1, "-",       TRUE),    \* 8 tolerating, binds late
     A(FALSE, FALSE, "-",     FALSE, TRUE,  1, "-",       FALSE),   \* 9 static (node-owned)
     A(FALSE, FALSE, "bogus", FALSE, FALSE, 1, "-",       FALSE) >> \* 10 invalid annotation value
-ArchT == <<ArchAll[2], ArchAll[6]>>
+ArchDl == <<ArchAll[2], ArchAll[3], ArchAll[6]>>
 ArchQuick == <<ArchAll[1], ArchAll[2], ArchAll[3], ArchAll[5], ArchAll[6], ArchAll[8]>>
 
-Hist(e) == h' = Append(h, e)
+Hist(e) == Len(h) < MaxLen /\ h' = Append(h, e)
 \* deletion times beyond every deadline and the clock bound are equivalent
 Cap(t) == IF t > MaxNow + 1 THEN MaxNow + 1 ELSE t
 PodSeq == CHOOSE s \in [1..Cardinality(Pods) -> Pods] : \A i, j \in DOMAIN s : i # j => s[i] # s[j]
@@ -197,13 +197,12 @@ Restart == /\ restarts < MaxRestarts /\ restarts' = restarts + 1
            /\ q' = [p \in Pods |-> NotQ] /\ qU' = q'
            /\ Env([a |-> "Restart"]) /\ UNCHANGED <<attr, pd, dl, dlChanges, tgp, now, faults, spont>>
 
-Next == /\ Len(h) < MaxLen
-        /\ \/ DrainPass
-           \/ \E p \in Pods, f \in {"ok", "err"} : QRec(p, f)
-           \/ \E p \in Pods : PodGone(p) \/ PodSucceeds(p) \/ PodBinds(p) \/ PdbFlip(p) \/ DndClear(p)
-           \/ \E p \in Pods, long \in BOOLEAN : UserDelete(p, long)
-           \/ \E d \in {TGP - 1, TGP + 1} : Deadline(d)
-           \/ Tick \/ Restart
+Next == \/ DrainPass
+        \/ \E p \in Pods, f \in {"ok", "err"} : QRec(p, f)
+        \/ \E p \in Pods : PodGone(p) \/ PodSucceeds(p) \/ PodBinds(p) \/ PdbFlip(p) \/ DndClear(p)
+        \/ \E p \in Pods, long \in BOOLEAN : UserDelete(p, long)
+        \/ \E d \in {TGP - 1, TGP + 1} : Deadline(d)
+        \/ Tick \/ Restart
 Spec == Init /\ [][Next]_vars
 FairSpec == Spec /\ WF_vars(DrainPass) /\ WF_vars(Tick) /\ \A p \in Pods : WF_vars(QRec(p, "ok")) /\ WF_vars(Terminating_(p) /\ PodGone(p))
 
